@@ -295,41 +295,57 @@ def run_case(case):
         res.tag("fault:not-applicable")
         return res
     kind = present[fault["kind"] % len(present)]
-    cands = [s for s in allslots if s[0] == kind]
-    _, owner, field = cands[fault["slot"] % len(cands)]
     by_kind = {}
     for k, _n, u in r.nodes:
         by_kind.setdefault(k, []).append(u)
     wrong = [k for k in ALL_KINDS if k not in ALLOWED[kind] and by_kind.get(k)]
-    repl = fault["repl"] % (len(wrong) + 2)
-    if repl >= len(wrong):
-        new = uuidmod.UUID(int=(0xF00D << 100) | fault["slot"]).bytes
-        res.tag("repl:missing")
-        repl_name = "a missing uuid"
-    else:
-        k = wrong[repl]
-        new = by_kind[k][fault["slot"] % len(by_kind[k])].bytes
-        res.tag("repl:wrong-kind", "repl:" + k)
-        repl_name = "a " + k
-    setattr(owner, field, new)
+    n_slots = len([s_ for s_ in allslots if s_[0] == kind])
     res.tag("fault:" + kind)
     res.nontrivial = True
-    try:
-        ir2 = g.IR.load_protobuf_file(io.BytesIO(header() + msg.SerializeToString()))
-    except DeserializationError:
-        return res
-    except pbt.CaseTimeout:
-        raise
-    except Exception as e:
+
+    def try_fault(slot_i, repl):
+        """one reference of this kind replaced; -> True if the file was handled as the property says"""
+        m2 = IR_pb2.IR()
+        m2.CopyFrom(msg)
+        cands = [s_ for s_ in slots(m2) if s_[0] == kind]
+        _, owner, field = cands[slot_i % len(cands)]
+        if repl >= len(wrong):
+            new = uuidmod.UUID(int=(0xF00D << 100) | slot_i).bytes
+            res.tag("repl:missing")
+            repl_name = "a missing uuid"
+        else:
+            k = wrong[repl]
+            new = by_kind[k][slot_i % len(by_kind[k])].bytes
+            res.tag("repl:wrong-kind", "repl:" + k)
+            repl_name = "a " + k
+        setattr(owner, field, new)
+        try:
+            g.IR.load_protobuf_file(io.BytesIO(header() + m2.SerializeToString()))
+        except DeserializationError:
+            return True
+        except pbt.CaseTimeout:
+            raise
+        except Exception as e:
+            res.fail(
+                "C09:fault-%s-raises-%s-not-DeserializationError" % (kind, type(e).__name__),
+                "%s replaced by %s: %r" % (kind, repl_name, e),
+            )
+            return False
         res.fail(
-            "C09:fault-%s-raises-%s-not-DeserializationError" % (kind, type(e).__name__),
-            "%s replaced by %s: %r" % (kind, repl_name, e),
+            "C09:fault-%s-accepted" % kind,
+            "%s replaced by %s: load returned an IR" % (kind, repl_name),
         )
+        return False
+
+    # the sampled fault first (it is what a shrunk replay names) ...
+    if not try_fault(fault["slot"], fault["repl"] % (len(wrong) + 2)):
         return res
-    res.fail(
-        "C09:fault-%s-accepted" % kind,
-        "%s replaced by %s: load returned an IR" % (kind, repl_name),
-    )
+    # ... then every reference of that kind x every wrong kind and a missing UUID
+    for slot_i in range(n_slots):
+        for repl in range(len(wrong) + 1):
+            if not try_fault(slot_i, repl):
+                return res
+    res.tag("fault-sweep")
     return res
 
 
@@ -356,6 +372,6 @@ def replay(doc):
 
 
 def jobs(tier, seed):
-    n, shards = (5000, 8) if tier == "quick" else (240000, 16)
+    n, shards = (4000, 8) if tier == "quick" else (240000, 16)
     return [{"name": "refs-%d" % k, "kind": "refs", "n": n // shards, "seed": seed * 1000 + 400 + k,
              "shrink": 300 if tier == "quick" else 1500} for k in range(shards)]
